@@ -216,8 +216,8 @@ def kron_einsum(B, G, k, l, p, q):
     cmp_real(B, G, "imag(rank4)", cplx.imag(T4), np.vectorize(O.im, otypes=[object])(zT))
     cmp(B, G, "conj(rank4)", cplx.conj(T4), vmap(O.conj, zT))
     cmp_real(B, G, "absolute_value(rank4)", cplx.absolute_value(T4), vmap(lambda v: O.sqrt(O.abs2(v)), zT))
-    G.twin("twin_kron_order", B.scalars(cplx.kronecker_prod(X, Y))[0, min(1, k * p - 1), min(1, l * q - 1)],
-           O.re(zY[min(1, p - 1) if k * p > 1 and p == 1 else 0, 0] * zX[0, 0]) + 1)
+    # (indexing-free: a wrongly shaped result must fail its shape fact above, not crash the harness here)
+    G.twin("twin_kron_order", B.scalars(cplx.kronecker_prod(X, Y)).reshape(2, -1)[0, -1], O.re(zX[k - 1, l - 1] * zY[p - 1, q - 1]) + 1)
 
 
 def zeros(B, G):
